@@ -12,6 +12,7 @@ package c10
 import (
 	"fmt"
 	"math"
+	"math/big"
 	"math/bits"
 	"sort"
 	"strings"
@@ -30,11 +31,22 @@ import (
 // symbol identity of an output value is exactly what elvish code can observe.
 
 type c10Node struct {
-	kind string  // "num", "str", "list", "map"
-	f    float64 // num
-	s    string  // str, or map identity
-	kids []int   // list: symbol ids of the elements
+	kind string   // "num", "str", "list", "map"
+	r    *big.Rat // num: exact mathematical value; nil = NaN
+	s    string   // str, or map identity
+	kids []int    // list: symbol ids of the elements
 }
+
+func c10Rat(s string) *big.Rat {
+	r, ok := new(big.Rat).SetString(s)
+	if !ok {
+		panic("c10Rat " + s)
+	}
+	return r
+}
+
+// 2^64: an exact integer beyond the machine int range (elvish holds it as *big.Int).
+var c10TwoTo64 = new(big.Int).Lsh(big.NewInt(1), 64)
 
 type c10Sym struct {
 	val  any
@@ -58,14 +70,24 @@ const (
 	c10Ma   // [&k=a]
 	c10Mb   // [&k=b]
 	c10F1   // (num 1.0)
+	// machine ints that are far apart (differences beyond the int64 range), a
+	// big int, and floats that are far from every exact number of the pool
+	c10I0    // (num 0)
+	c10IMax  // (num 9223372036854775807)
+	c10IMin  // (num -9223372036854775808)
+	c10I5e18 // (num 5000000000000000000)
+	c10IN5e18
+	c10B64  // (num 18446744073709551616)
+	c10F05  // (num 0.5)
+	c10F25  // (num 2.5)
 	c10NSym
 )
 
 var c10Syms = [c10NSym]c10Sym{
-	c10I1:   {1, "(num 1)", c10Node{kind: "num", f: 1}},
-	c10I2:   {2, "(num 2)", c10Node{kind: "num", f: 2}},
-	c10F2:   {2.0, "(num 2.0)", c10Node{kind: "num", f: 2}},
-	c10NaN:  {math.NaN(), "(num NaN)", c10Node{kind: "num", f: math.NaN()}},
+	c10I1:   {1, "(num 1)", c10Node{kind: "num", r: c10Rat("1")}},
+	c10I2:   {2, "(num 2)", c10Node{kind: "num", r: c10Rat("2")}},
+	c10F2:   {2.0, "(num 2.0)", c10Node{kind: "num", r: c10Rat("2")}},
+	c10NaN:  {math.NaN(), "(num NaN)", c10Node{kind: "num", r: nil}},
 	c10Sa:   {"a", "a", c10Node{kind: "str", s: "a"}},
 	c10Sb:   {"b", "b", c10Node{kind: "str", s: "b"}},
 	c10L2a:  {vals.MakeList(2, "a"), "[(num 2) a]", c10Node{kind: "list", kids: []int{c10I2, c10Sa}}},
@@ -76,7 +98,16 @@ var c10Syms = [c10NSym]c10Sym{
 	c10L0:   {vals.EmptyList, "[]", c10Node{kind: "list"}},
 	c10Ma:   {vals.MakeMap("k", "a"), "[&k=a]", c10Node{kind: "map", s: "a"}},
 	c10Mb:   {vals.MakeMap("k", "b"), "[&k=b]", c10Node{kind: "map", s: "b"}},
-	c10F1:   {1.0, "(num 1.0)", c10Node{kind: "num", f: 1}},
+	c10F1:   {1.0, "(num 1.0)", c10Node{kind: "num", r: c10Rat("1")}},
+
+	c10I0:     {0, "(num 0)", c10Node{kind: "num", r: c10Rat("0")}},
+	c10IMax:   {math.MaxInt64, "(num 9223372036854775807)", c10Node{kind: "num", r: c10Rat("9223372036854775807")}},
+	c10IMin:   {math.MinInt64, "(num -9223372036854775808)", c10Node{kind: "num", r: c10Rat("-9223372036854775808")}},
+	c10I5e18:  {5000000000000000000, "(num 5000000000000000000)", c10Node{kind: "num", r: c10Rat("5000000000000000000")}},
+	c10IN5e18: {-5000000000000000000, "(num -5000000000000000000)", c10Node{kind: "num", r: c10Rat("-5000000000000000000")}},
+	c10B64:    {c10TwoTo64, "(num 18446744073709551616)", c10Node{kind: "num", r: c10Rat("18446744073709551616")}},
+	c10F05:    {0.5, "(num 0.5)", c10Node{kind: "num", r: c10Rat("1/2")}},
+	c10F25:    {2.5, "(num 2.5)", c10Node{kind: "num", r: c10Rat("5/2")}},
 }
 
 // Sub-alphabets (symbol ids).
@@ -84,7 +115,11 @@ var (
 	c10AMixed = []int{c10I1, c10I2, c10F2, c10NaN, c10Sa, c10Sb, c10L2a, c10L2b}
 	c10ATotal = []int{c10I1, c10I2, c10F2, c10NaN, c10Sa, c10Sb, c10L2a, c10L2b, c10Ma, c10Mb}
 	c10ANum   = []int{c10I1, c10I2, c10F2, c10F1, c10NaN}
-	c10AList  = []int{c10L2a, c10L2b, c10LF2a, c10L1b, c10La, c10L0}
+	// exact numbers whose differences overflow int64, one big int, and floats far
+	// from every exact number of the pool (so that mixed comparisons are
+	// unambiguous; exact/inexact pairs near 2^53 are C09's subject)
+	c10AWide = []int{c10I0, c10I1, c10I2, c10IMax, c10IMin, c10I5e18, c10IN5e18, c10B64, c10F05, c10F25}
+	c10AList = []int{c10L2a, c10L2b, c10LF2a, c10L1b, c10La, c10L0}
 )
 
 // c10SymOf maps a value output by order back to its symbol (-1: not one of ours).
@@ -96,6 +131,21 @@ func c10SymOf(v any) int {
 			return c10I1
 		case 2:
 			return c10I2
+		case 0:
+			return c10I0
+		case math.MaxInt64:
+			return c10IMax
+		case math.MinInt64:
+			return c10IMin
+		case 5000000000000000000:
+			return c10I5e18
+		case -5000000000000000000:
+			return c10IN5e18
+		}
+		return -1
+	case *big.Int:
+		if v.Cmp(c10TwoTo64) == 0 {
+			return c10B64
 		}
 		return -1
 	case float64:
@@ -106,6 +156,10 @@ func c10SymOf(v any) int {
 			return c10F2
 		case v == 1:
 			return c10F1
+		case v == 0.5:
+			return c10F05
+		case v == 2.5:
+			return c10F25
 		}
 		return -1
 	case string:
@@ -144,7 +198,8 @@ func c10DocCmp(a, b int, total bool, typeRank map[string]int) int {
 	}
 	switch x.kind {
 	case "num":
-		xn, yn := math.IsNaN(x.f), math.IsNaN(y.f)
+		// exact mathematical values; NaN is smaller than every number and equal to itself
+		xn, yn := x.r == nil, y.r == nil
 		switch {
 		case xn && yn:
 			return 0
@@ -152,12 +207,8 @@ func c10DocCmp(a, b int, total bool, typeRank map[string]int) int {
 			return -1
 		case yn:
 			return 1
-		case x.f < y.f:
-			return -1
-		case x.f > y.f:
-			return 1
 		}
-		return 0
+		return x.r.Cmp(y.r)
 	case "str":
 		return strings.Compare(x.s, y.s)
 	case "list":
@@ -184,7 +235,9 @@ func c10DocCmp(a, b int, total bool, typeRank map[string]int) int {
 	}
 }
 
-// Matrices filled from the real compare builtin at start-up.
+// The demanded order of every pair of symbols: the documented comparison
+// (c10DocCmp), filled at start-up and cross-checked there against the outputs
+// of the real compare builtin.
 var (
 	c10CmpM [c10NSym][c10NSym]int8
 	c10TotM [c10NSym][c10NSym]int8
@@ -1108,10 +1161,11 @@ func c10BigFaults(c *vk.Ctx, ns []int, cfgs []*c10Cfg) {
 func c10Matrices(c *vk.Ctx) {
 	w := c10Get()
 	defer c10Put(w)
+	var realCmp, realTot [c10NSym][c10NSym]int8
 	for i := 0; i < c10NSym; i++ {
 		for j := 0; j < c10NSym; j++ {
-			c10CmpM[i][j] = int8(w.realCompare(c10Syms[i].val, c10Syms[j].val, false))
-			c10TotM[i][j] = int8(w.realCompare(c10Syms[i].val, c10Syms[j].val, true))
+			realCmp[i][j] = int8(w.realCompare(c10Syms[i].val, c10Syms[j].val, false))
+			realTot[i][j] = int8(w.realCompare(c10Syms[i].val, c10Syms[j].val, true))
 		}
 	}
 	// observed order of the types under &total (unspecified but consistent)
@@ -1119,18 +1173,20 @@ func c10Matrices(c *vk.Ctx) {
 	rank := map[string]int{}
 	for k, i := range reps {
 		for _, j := range reps {
-			if c10TotM[j][i] < 0 {
+			if realTot[j][i] < 0 {
 				rank[k]++
 			}
 		}
 	}
 	for i := 0; i < c10NSym; i++ {
 		for j := 0; j < c10NSym; j++ {
-			if d := c10DocCmp(i, j, false, nil); int(c10CmpM[i][j]) != d {
-				c.Violate("compare-disagrees-with-doc", fmt.Sprintf("compare %s %s gives %d, documented %d (2 = exception)", c10Syms[i].repr, c10Syms[j].repr, c10CmpM[i][j], d), nil)
+			c10CmpM[i][j] = int8(c10DocCmp(i, j, false, nil))
+			c10TotM[i][j] = int8(c10DocCmp(i, j, true, rank))
+			if realCmp[i][j] != c10CmpM[i][j] {
+				c.Violate("compare-disagrees-with-doc", fmt.Sprintf("compare %s %s gives %d, documented %d (2 = exception)", c10Syms[i].repr, c10Syms[j].repr, realCmp[i][j], c10CmpM[i][j]), nil)
 			}
-			if d := c10DocCmp(i, j, true, rank); int(c10TotM[i][j]) != d {
-				c.Violate("compare-total-disagrees-with-doc", fmt.Sprintf("compare &total %s %s gives %d, documented %d given the observed type order %v", c10Syms[i].repr, c10Syms[j].repr, c10TotM[i][j], d, rank), nil)
+			if realTot[i][j] != c10TotM[i][j] {
+				c.Violate("compare-total-disagrees-with-doc", fmt.Sprintf("compare &total %s %s gives %d, documented %d given the observed type order %v", c10Syms[i].repr, c10Syms[j].repr, realTot[i][j], c10TotM[i][j], rank), nil)
 			}
 			c.Case(fmt.Sprintf("compare-matrix|%d|%d", c10CmpM[i][j], c10TotM[i][j]))
 		}
@@ -1160,8 +1216,8 @@ func c10Matrices(c *vk.Ctx) {
 func TestVerifC10(t *testing.T) {
 	vk.Run(t, "C10", "exploration", func(c *vk.Ctx) {
 		th := c.Thorough()
-		c.Rule("(1) every sequence of values up to a length bound over four small alphabets (mixed kinds, mixed kinds + maps, numbers, lists), length-lexicographic, each run under every listed option combination of order, with inputs as a list argument and (smaller bound) on the input channel; (2) for every such sequence (smaller bound) and every k, the k-th call of a Go &key / &less-than callback throws or outputs the wrong number/kind of values; (3) every binary key sequence of length 21..23 (quick: 21) and every key sequence of <=4 runs for lengths up to 64, on elements with unique observable tags that compare equal. class = (group, options, length, outcome, number of displaced elements, number of distinguishable ties) resp. (options, number of second-key elements / runs)")
-		c.Assume("the compare builtin is taken as given (its laws are C09's subject): the demanded order of every pair is what the real compare builtin outputs for it, cross-checked against the documented comparison on the alphabet",
+		c.Rule("(1) every sequence of values up to a length bound over five small alphabets (mixed kinds, mixed kinds + maps, numbers, far-apart machine ints with a big int and floats, lists), length-lexicographic, each run under every listed option combination of order, with inputs as a list argument and (smaller bound) on the input channel; (2) for every such sequence (smaller bound) and every k, the k-th call of a Go &key / &less-than callback throws or outputs the wrong number/kind of values; (3) every binary key sequence of length 21..23 (quick: 21) and every key sequence of <=4 runs for lengths up to 64, on elements with unique observable tags that compare equal. class = (group, options, length, outcome, number of displaced elements, number of distinguishable ties) resp. (options, number of second-key elements / runs)")
+		c.Assume("the demanded order of every pair is the documented comparison of the compare builtin (numbers by exact mathematical value, NaN smallest; strings by bytes; lists lexicographically; other pairs uncomparable / by the observed type order under &total), cross-checked at start-up against the outputs of the real compare builtin on the alphabet; compare's laws on other values are C09's subject",
 			"ties under &reverse are demanded to keep input order (stable descending sort), as the property statement says",
 			"output values are identified by observable identity: all alphabet symbols and all tags have different representations")
 
@@ -1207,6 +1263,10 @@ func TestVerifC10(t *testing.T) {
 		phase("numbers")
 		c10Small(c, "lists", c10AList, vk.Pick(c, 6, 7), plain, false)
 		phase("lists")
+		c10Small(c, "wide-numbers", c10AWide, vk.Pick(c, 4, 6), plain, false)
+		c10Small(c, "wide-numbers/input-channel", c10AWide, vk.Pick(c, 3, 4), plain, true)
+		c10Small(c, "wide-numbers/elvish-callbacks", c10AWide, vk.Pick(c, 3, 4), cbMixed, false)
+		phase("wide-numbers")
 		c10Small(c, "mixed+maps/input-channel", c10ATotal, vk.Pick(c, 4, 5), plain, true)
 		phase("mixed+maps/input-channel")
 		c10Small(c, "mixed/elvish-callbacks", c10AMixed, vk.Pick(c, 4, 5), cbMixed, false)
@@ -1260,6 +1320,6 @@ func TestVerifC10(t *testing.T) {
 		c.Sample(c10Render(cbList[1], []int{c10L2b, c10L2a, c10L1b}, false))
 		c.Sample(c10Render(plain[2], []int{c10Mb, c10Sa, c10Ma, c10I1}, true))
 		c.Sample("order on 21 tagged elements with keys " + c10BitString(21, 0x15a5a5))
-		c.Set("alphabets", map[string]string{"mixed": c10RenderIDs(c10AMixed), "mixed+maps": c10RenderIDs(c10ATotal), "numbers": c10RenderIDs(c10ANum), "lists": c10RenderIDs(c10AList)})
+		c.Set("alphabets", map[string]string{"mixed": c10RenderIDs(c10AMixed), "mixed+maps": c10RenderIDs(c10ATotal), "numbers": c10RenderIDs(c10ANum), "wide-numbers": c10RenderIDs(c10AWide), "lists": c10RenderIDs(c10AList)})
 	})
 }
